@@ -202,6 +202,36 @@ ITERTOOLS_FN = {"takewhile": "PyRt.takewhile", "dropwhile": "PyRt.dropwhile"}
 CONSUMERS = {"len", "list", "tuple", "sorted", "any", "all", "max", "min", "enumerate", "reversed", "bool", "str"}
 FRESH_CALLS = {"list", "sorted"}
 
+# --- x3: markers (C07, C09) -----------------------------------------------------------------------------------------
+SELECTED += [
+    ("_normalize_extra_values", "packaging.markers", "_normalize_extra_values"),
+    ("_format_marker", "packaging.markers", "_format_marker"),
+    ("_eval_op", "packaging.markers", "_eval_op"),
+    ("_normalize", "packaging.markers", "_normalize"),
+    ("_get_env", "packaging.markers", "_get_env"),
+    ("_evaluate_markers", "packaging.markers", "_evaluate_markers"),
+    ("format_full_version", "packaging.markers", "format_full_version"),
+    ("_repair_python_full_version", "packaging.markers", "_repair_python_full_version"),
+    ("Marker.__str__", "packaging.markers", "Marker.__str__"),
+    ("Marker.__eq__", "packaging.markers", "Marker.__eq__"),
+    ("Marker.__hash__", "packaging.markers", "Marker.__hash__"),
+    ("Marker.evaluate", "packaging.markers", "Marker.evaluate"),
+]
+TRACKED += [("packaging._parser", "Node"), ("packaging._parser", "Variable"), ("packaging._parser", "Value"),
+            ("packaging._parser", "Op"), ("packaging.markers", "Marker")]
+# functions / constructors / methods that the code of a module calls but that are modelled elsewhere: inside the named
+# module a call of one of them becomes `PyRt.ext_call ext "<name>" [args]` (the function then takes the oracle `ext`)
+ORACLE_CALLS = {
+    "packaging.markers": {"canonicalize_name", "Specifier", "Specifier.contains", "default_environment"},
+}
+# modules in which `hash(v)` stays symbolic (`PyRt.hash_sym`), so that the hashed key is visible in the result
+SYMBOLIC_HASH = {"packaging.markers"}
+DICT_MUTATORS = {"update": ("PyRt.dict_update", 1)}
+DICT_METHODS = {"copy": ("PyRt.dict_copy", 0), "keys": ("PyRt.dict_keys", 0), "items": ("PyRt.dict_items", 0)}
+OPERATOR_FN = {"lt": "PyRt.lt {a} {b}", "le": "PyRt.le {a} {b}", "gt": "PyRt.gt {a} {b}", "ge": "PyRt.ge {a} {b}",
+               "eq": "pure (PyRt.eq {a} {b})", "ne": "pure (PyRt.ne {a} {b})"}
+# --- x3 end ---------------------------------------------------------------------------------------------------------
+
 
 # ---------------------------------------------------------------------------------------------- one function
 class Fn:
@@ -255,7 +285,7 @@ class Fn:
                 return self.owner
             for a in args + self.node.args.kwonlyargs:
                 if a.arg == e.id and e.id not in self.param_assigned_names():
-                    return self.ann_class(a.annotation)
+                    return self.ann_class(a.annotation) or self.x3_guard_class(e)
             # a local assigned exactly once, from an expression of known class
             key = ("local", e.id)
             if key in self._class_guard:
@@ -309,9 +339,10 @@ class Fn:
 
     def params(self):
         a = self.node.args
-        if a.vararg or a.kwarg or a.posonlyargs:
-            raise Unsupported("*args / **kwargs / positional-only parameters")
-        return [x.arg for x in a.args] + [x.arg for x in a.kwonlyargs]
+        if a.kwarg or a.posonlyargs:
+            raise Unsupported("**kwargs / positional-only parameters")
+        # x3: `*values` is one parameter holding the tuple of the extra positional arguments
+        return [x.arg for x in a.args] + ([a.vararg.arg] if a.vararg else []) + [x.arg for x in a.kwonlyargs]
 
     # ------------------------------------------------------------------ analyses
     def analyse(self):
@@ -359,6 +390,8 @@ class Fn:
             if isinstance(n, ast.Expr) and isinstance(n.value, ast.Call) and isinstance(n.value.func, ast.Attribute) \
                     and isinstance(n.value.func.value, ast.Name) and n.value.func.attr in (set(MUTATORS) | OTHER_MUTATORS) \
                     and n.value.func.value.id in self.locals:
+                if n.value.func.attr in DICT_MUTATORS and self.x3_is_dict_name(n.value.func.value.id):
+                    continue                             # x3: checked in x3_analyse
                 if n.value.func.attr in OTHER_MUTATORS:
                     raise Unsupported(f"in-place method {n.value.func.attr}")
                 self.mutated.add(n.value.func.value.id)
@@ -368,9 +401,12 @@ class Fn:
                     if self.is_init and isinstance(n, ast.Assign) and isinstance(t, ast.Attribute) \
                             and isinstance(t.value, ast.Name) and t.value.id == params[0]:
                         continue                         # self.x = e inside __init__
+                    if isinstance(t, ast.Subscript) and isinstance(t.value, ast.Name) and t.value.id in self.locals:
+                        continue                         # x3: `name[k] = e`, checked in x3_analyse
                     for sub in ast.walk(t):
                         if isinstance(sub, (ast.Subscript, ast.Attribute)) and isinstance(sub.ctx, ast.Store):
                             raise Unsupported("assignment to a subscript or attribute")
+        self.x3_analyse(body)
         self._check_ownership(body)
         # hoisting: locals whose first assignment is not a top-level statement of the body
         top_first = set()
@@ -397,6 +433,7 @@ class Fn:
             muts = [n.lineno for n in _walk_scope(body)
                     if isinstance(n, ast.Expr) and isinstance(n.value, ast.Call) and isinstance(n.value.func, ast.Attribute)
                     and isinstance(n.value.func.value, ast.Name) and n.value.func.value.id == m and n.value.func.attr in MUTATORS]
+            muts += [n.lineno for n in _walk_scope(body) if _nested_mutation(n) == m]          # x3
             first = min(muts)
             fresh = [st for st in body if isinstance(st, ast.Assign) and len(st.targets) == 1
                      and isinstance(st.targets[0], ast.Name) and st.targets[0].id == m and _is_fresh_list(st.value)
@@ -551,9 +588,11 @@ class Fn:
                     if st.orelse:
                         raise Unsupported("for ... else")
                 elif isinstance(st, ast.Try):
-                    if st.orelse or st.finalbody:
-                        raise Unsupported("try ... else / finally")
+                    if st.finalbody:
+                        raise Unsupported("try ... finally")
                     a = block(st.body, d)
+                    if st.orelse and a is not None:       # x3: the else block runs after a body that completed
+                        a = block(st.orelse, a)
                     outs = [a]
                     for h in st.handlers:
                         outs.append(block(h.body, d))
@@ -597,6 +636,14 @@ class Fn:
         if _falls_through(body):
             self.emit(1, "return " + self.default_return())
         env = "(env : PyRt.Env) " if self.lean_name in self.ctx.uses_env else ""
+        env += "(ext : PyRt.Oracle) " if self.lean_name in self.ctx.uses_ext else ""          # x3
+        if self.lean_name in self.ctx.recursive:                                               # x3: fuel
+            ps = [lname(p) for p in params]
+            self.lines[self.head_index] = (
+                f"def {self.lean_name}__fuel {env}: Nat" + "".join(" → PyVal" for _ in ps) + " → M PyVal\n"
+                f"  | 0" + "".join(", _" for _ in ps) + ' => throw "RecursionError"\n'
+                f"  | __fuel + 1" + "".join(", " + q for q in ps) + " => do")
+            return "\n".join([self.lines[self.head_index]] + ["  " + l for l in self.lines[self.head_index + 1:]])
         self.lines[self.head_index] = f"def {self.lean_name} {env}" + (f"({sig} : PyVal) " if params else "") + ": M PyVal := do"
         return "\n".join(self.lines)
 
@@ -627,6 +674,8 @@ class Fn:
             self.emit(ind, f"let mut {n} := {rhs}" if rhs_pure else f"let mut {n} ← {rhs}")
 
     def stmt(self, st, ind):
+        if self.x3_stmt(st, ind):
+            return
         if isinstance(st, ast.Pass):
             self.emit(ind, "pure ()")
         elif isinstance(st, ast.Return):
@@ -708,6 +757,7 @@ class Fn:
                 t = self.fresh("x")
                 self.emit(ind, f"for {t} in (← PyRt.iterate {src}) do")
                 self.emit(ind + 1, self.unpack_line(names, t))
+                self.x3_enter_loop(st, names, ind + 1)
             else:
                 raise Unsupported("loop target")
             saved = set(self.declared)
@@ -718,9 +768,15 @@ class Fn:
         elif isinstance(st, ast.Continue):
             self.emit(ind, "continue")
         elif isinstance(st, ast.Try):
+            flag = None
+            if st.orelse:                                  # x3: try/else — the flag says the body ran to its end
+                flag = self.fresh("else")
+                self.emit(ind, f"let mut {flag} := false")
             self.emit(ind, "try")
             saved = set(self.declared)
             self.block(st.body, ind + 1)
+            if flag is not None and _falls_through(st.body):
+                self.emit(ind + 1, f"{flag} := true")
             self.declared = set(saved)
             e = self.fresh("e")
             self.emit(ind, f"catch {e} =>")
@@ -735,6 +791,10 @@ class Fn:
                 self.block(h.body, ind + 2)
                 self.declared = set(saved)
             self.emit(ind + 1, f"else throw {e}")
+            if flag is not None:
+                self.emit(ind, f"if {flag} then")
+                self.block(st.orelse, ind + 1)
+                self.declared = set(saved) | (self.declared & set(self.hoisted))
         else:
             raise Unsupported(f"statement {type(st).__name__}")
 
@@ -880,6 +940,8 @@ class Fn:
                     self.emit(ind, f"let _ ← {c}")
             self.emit(ind, "pure ()")
             return
+        if self.x3_expr_stmt(e, ind):
+            return
         if isinstance(e, ast.Call) and isinstance(e.func, ast.Attribute) and isinstance(e.func.value, ast.Name) \
                 and e.func.attr in MUTATORS and e.func.value.id in self.mutated:
             fn, ar = MUTATORS[e.func.attr]
@@ -944,10 +1006,10 @@ class Fn:
     def is_pure(self, e) -> bool:
         saved_tmp, saved_lines = self.tmp, list(self.lines)
         try:
-            p, _ = self.expr(e)
+            p, c = self.expr(e)
         finally:
             self.tmp, self.lines = saved_tmp, saved_lines
-        return p
+        return p and "←" not in c          # x3: a lifted sub-term would be evaluated outside the short circuit
 
     def expr(self, e):
         """-> (pure?, term): a PyVal term if pure, else an `M PyVal` term.  Monadic sub-terms are lifted with
@@ -984,6 +1046,8 @@ class Fn:
             return False, f"(do if {c} then {self.scoped(e.body)} else {self.scoped(e.orelse)})"
         if isinstance(e, ast.Subscript):
             base = self.val(e.value)
+            if not isinstance(e.slice, ast.Slice) and self.x3_is_dict_expr(e.value):
+                return False, f"PyRt.dict_getitem {base} {self.val(e.slice)}"
             if isinstance(e.slice, ast.Slice):
                 if e.slice.step is not None:
                     raise Unsupported("slice with a step")
@@ -1320,6 +1384,8 @@ class Fn:
                                        f"else {self.ctx.require(obj.fget)} {lname(selfname)})")
                     raise Unsupported(f"super().{e.attr} is not a property")
             raise Unsupported(f"super().{e.attr} not found")
+        if e.attr == "__name__" and isinstance(base, ast.Attribute) and base.attr == "__class__":       # x3
+            return True, f"(PyVal.str (Py.ofString (PyRt.className {self.val(base.value)})))"
         dotted = _dotted(e)
         if dotted and dotted[0] not in self.locals and dotted[0] not in self.bound_stack() and ".".join(dotted) in EXTERNAL_READS \
                 and inspect.ismodule(self.globals.get(dotted[0])):
@@ -1327,7 +1393,7 @@ class Fn:
         c = self.static_class(base)
         recv = self.val(base)
         if c is None:
-            if self.ctx.defined_by_tracked(e.attr):
+            if self.ctx.defined_by_tracked(e.attr) and not self.x3_foreign(base):
                 raise Unsupported(f"attribute .{e.attr} of a value whose class is not known statically")
             return False, f'PyRt.getattr {recv} "{e.attr}"'
         return False, self.dispatch(c, e.attr, recv, lambda impl: self.attr_impl(impl, e.attr))
@@ -1387,6 +1453,9 @@ class Fn:
                     continue
                 raise Unsupported("**kwargs in a call")
             kws[k.arg] = k.value
+        r3 = self.x3_call(e, kws)
+        if r3 is not None:
+            return r3
         if isinstance(f, ast.Name) and f.id in self.fn_locals:
             kind, c, r, o = self.fn_locals[f.id]
             if kws or len(e.args) != 2:
@@ -1540,6 +1609,10 @@ class Fn:
         env = ""
         if lean_name in self.ctx.uses_env:
             env = " " + self.use_env()
+        if lean_name in self.ctx.uses_ext:                          # x3
+            env += " " + self.use_ext()
+        if lean_name in self.ctx.recursive and self.ctx.recursive[lean_name] == self.ctx.recursive.get(self.lean_name):
+            return lean_name + "__fuel" + env + " __fuel" + "".join(" " + a for a in args)   # x3: inside the same group
         return lean_name + env + "".join(" " + a for a in args)
 
     def builtin_call(self, name, args, kws):
@@ -1549,6 +1622,8 @@ class Fn:
             fn = self.fn_arg(args[0])
             return False, f"PyRt.map_ {fn} {self.val(args[1])}"
         if name == "hash" and not kws and len(args) == 1:
+            if self.pyfunc.__module__ in SYMBOLIC_HASH:             # x3
+                return False, f"PyRt.hash_sym {self.val(args[0])}"
             return False, f"PyRt.hash_ {self.val(args[0])}"
         if name == "hasattr" and not kws and len(args) == 2 and isinstance(args[0], ast.Name) \
                 and isinstance(args[1], ast.Constant) and (args[0].id, args[1].value) in EXTERNAL_HASATTR:
@@ -1635,6 +1710,16 @@ class Fn:
         return self.bind_args_named(sig, names, args, kws)
 
     def bind_args_named(self, sig, names, args, kws):
+        var = [n for n in names if sig.parameters[n].kind == inspect.Parameter.VAR_POSITIONAL]
+        if var:                                                     # x3: extra positional arguments -> one tuple
+            k = names.index(var[0])
+            head, extra = list(args[:k]), list(args[k:])
+            vals = [self.val(a) for a in head]
+            packed = "(PyVal.tuple [" + ", ".join(self.val(a) for a in extra) + "])"
+            rest = self.bind_args_named(sig, [n for n in names[k + 1:]], [], kws)
+            if len(head) < k:
+                raise Unsupported("missing positional argument before *args")
+            return vals + [packed] + rest
         out = {}
         if len(args) > len(names):
             raise Unsupported("too many arguments")
@@ -1679,6 +1764,506 @@ class Fn:
             return [c for x in t.elts for c in self.handler_classes(x)]
         return [self.exc_class(t)]
 
+    # ================================================================================================ x3 extensions
+    # oracles, dicts, item assignment on owned values, functions that update a parameter in place, nested list mutation,
+    # tables of callables, dynamic method dispatch, isinstance guards
+    def use_ext(self):
+        self.ctx.uses_ext.add(self.lean_name)
+        return "ext"
+
+    def x3_oracles(self):
+        return ORACLE_CALLS.get(self.pyfunc.__module__, ())
+
+    # ---- dict-typed names (by annotation or by what they are bound to)
+    def x3_is_dict_ann(self, ann):
+        if ann is None:
+            return False
+        if isinstance(ann, ast.Constant) and isinstance(ann.value, str):
+            try:
+                ann = ast.parse(ann.value, mode="eval").body
+            except SyntaxError:
+                return False
+        if isinstance(ann, ast.BinOp) and isinstance(ann.op, ast.BitOr):
+            return self.x3_is_dict_ann(ann.left) or self.x3_is_dict_ann(ann.right)
+        if isinstance(ann, ast.Subscript):
+            ann = ann.value
+        return isinstance(ann, ast.Name) and ann.id in ("dict", "Dict", "RawMetadata")
+
+    def x3_is_dict_name(self, name):
+        cache = self.__dict__.setdefault("_x3_dict_cache", {})
+        if name not in cache:
+            cache[name] = False                       # cycles: not a dict
+            cache[name] = self._x3_is_dict_name(name)
+        return cache[name]
+
+    def _x3_is_dict_name(self, name):
+        a = self.node.args
+        for p_ in a.args + a.kwonlyargs:
+            if p_.arg == name:
+                return self.x3_is_dict_ann(p_.annotation)
+        binds = [n for n in _walk_scope(self.node.body) if name in _targets_of(n)]
+        if not binds:
+            return False
+        for n in binds:
+            if isinstance(n, ast.AnnAssign) and self.x3_is_dict_ann(n.annotation):
+                continue
+            if isinstance(n, ast.Assign) and len(n.targets) == 1 and isinstance(n.targets[0], ast.Name) and self.x3_dict_valued(n.value):
+                continue
+            return False
+        return True
+
+    def x3_dict_valued(self, v):
+        if isinstance(v, (ast.Dict, ast.DictComp)):
+            return True
+        if isinstance(v, ast.Call) and isinstance(v.func, ast.Name):
+            if v.func.id == "dict" and "dict" not in self.locals:
+                return True
+            if v.func.id == "cast" and len(v.args) == 2:
+                return self.x3_is_dict_ann(v.args[0]) or self.x3_dict_valued(v.args[1])
+        if isinstance(v, ast.Call) and isinstance(v.func, ast.Attribute) and v.func.attr == "copy" and self.x3_is_dict_expr(v.func.value):
+            return True
+        return False
+
+    def x3_is_dict_expr(self, e):
+        if isinstance(e, ast.Name) and e.id in self.locals and e.id not in self.bound_stack():
+            return self.x3_is_dict_name(e.id)
+        return False
+
+    # ---- functions that update a parameter in place and hand it back
+    def x3_callee(self, call):
+        """the library function a call names (plain name, not a local), else None"""
+        f = call.func
+        if isinstance(f, ast.Name) and f.id not in self.locals and f.id not in self.bound_stack():
+            v = self.globals.get(f.id)
+            if inspect.isfunction(v) and (v.__module__ or "").startswith("packaging"):
+                return v
+        return None
+
+    def x3_ipf_arg(self, call):
+        """`f(…, x, …)` where f updates that parameter in place and x is a plain local name: the Name node, else None"""
+        v = self.x3_callee(call)
+        if v is None:
+            return None
+        k = self.ctx.ipf_of(v)
+        if k is None or k >= len(call.args):
+            return None
+        a = call.args[k]
+        return a if isinstance(a, ast.Name) and a.id in self.locals else None
+
+    def x3_analyse(self, body):
+        params = self.params()
+        self.owned2 = set()       # names updated in place other than by the list methods in MUTATORS
+        self.nested = set()       # lists whose *elements* are mutated: `n[i].append(x)`
+        self.alias = {}           # loop variable -> (list, index variable) inside `for i, x in enumerate(list)`
+        self._ipf_ok = set()      # ids of in-place calls that a statement-level rewrite has taken care of
+        enum_elems = {}
+        for n in _walk_scope(body):
+            if isinstance(n, ast.For) and isinstance(n.iter, ast.Call) and isinstance(n.iter.func, ast.Name) \
+                    and n.iter.func.id == "enumerate" and len(n.iter.args) == 1 and isinstance(n.iter.args[0], ast.Name) \
+                    and isinstance(n.target, ast.Tuple) and len(n.target.elts) == 2 and all(isinstance(x, ast.Name) for x in n.target.elts):
+                enum_elems[n.target.elts[1].id] = (n.iter.args[0].id, n.target.elts[0].id, n)
+        self.enum_elems = enum_elems
+        for n in _walk_scope(body, into_exprs=True):
+            if isinstance(n, (ast.Assign, ast.AugAssign, ast.AnnAssign)):
+                for t in (n.targets if isinstance(n, ast.Assign) else [n.target]):
+                    if isinstance(t, ast.Subscript) and isinstance(t.value, ast.Name) and t.value.id in self.locals:
+                        self.owned2.add(t.value.id)
+            if isinstance(n, ast.Call) and isinstance(n.func, ast.Attribute) and isinstance(n.func.value, ast.Name) \
+                    and n.func.attr in DICT_MUTATORS and n.func.value.id in self.locals and self.x3_is_dict_name(n.func.value.id):
+                self.owned2.add(n.func.value.id)
+            if isinstance(n, ast.Call):
+                a = self.x3_ipf_arg(n)
+                if a is not None:
+                    if a.id in enum_elems:
+                        self.owned2.add(enum_elems[a.id][0])      # written back into the list it came from
+                    else:
+                        self.owned2.add(a.id)
+        for n in _walk_scope(body):
+            m = _nested_mutation(n)
+            if m is not None:
+                if m not in self.locals:
+                    raise Unsupported("nested mutation of something that is not a local")
+                self.mutated.add(m)
+                self.nested.add(m)
+        for m in self.nested:       # every element of such a list must be a list of its own (no alias can exist)
+            for n in _walk_scope(body):
+                vals = []
+                if isinstance(n, (ast.Assign, ast.AnnAssign)) and m in _targets_of(n) and n.value is not None:
+                    if not isinstance(n.value, ast.List):
+                        raise Unsupported(f"{m}: elements are mutated but it is not bound to a list display")
+                    vals = list(n.value.elts)
+                if isinstance(n, ast.Expr) and isinstance(n.value, ast.Call) and isinstance(n.value.func, ast.Attribute) \
+                        and isinstance(n.value.func.value, ast.Name) and n.value.func.value.id == m:
+                    if n.value.func.attr != "append":
+                        raise Unsupported(f"{m}: elements are mutated and it is changed by .{n.value.func.attr}")
+                    vals = list(n.value.args)
+                if any(not _is_fresh_list(v) for v in vals):
+                    raise Unsupported(f"{m}: elements are mutated but an element may be shared")
+        own = self.ctx.ipf_of(self.pyfunc)
+        own_name = self.node.args.args[own].arg if own is not None else None
+        assigned = {x for n in _walk_scope(body) for x in _targets_of(n)}
+        parents = {}
+        for n in _walk_scope(body, into_exprs=True):
+            for c in ast.iter_child_nodes(n):
+                parents[c] = n
+        for m in sorted(self.owned2):
+            if m in params:
+                if m != own_name or m in assigned:
+                    raise Unsupported(f"parameter {m} is updated in place (and the function is not of the form that hands it back)")
+                if m not in self.param_assigned:
+                    self.param_assigned.append(m)
+            else:
+                for n in _walk_scope(body):
+                    if m in _targets_of(n):
+                        if not (isinstance(n, (ast.Assign, ast.AnnAssign)) and n.value is not None and self.x3_fresh_value(n.value)
+                                and isinstance(n.targets[0] if isinstance(n, ast.Assign) else n.target, ast.Name)):
+                            raise Unsupported(f"{m} is updated in place but bound to a value that may be shared")
+                for n in _walk_scope(body):
+                    if isinstance(n, ast.For) and any(isinstance(x, ast.Name) and x.id == m for x in ast.walk(n.target)):
+                        raise Unsupported(f"loop variable {m} is updated in place")
+            for n in _walk_scope(body, into_exprs=True):
+                if isinstance(n, ast.Name) and n.id == m and isinstance(n.ctx, ast.Load):
+                    p_ = parents.get(n)
+                    g_ = parents.get(p_)
+                    ok = False
+                    if isinstance(p_, ast.Subscript) and p_.value is n:
+                        ok = True
+                    elif isinstance(p_, ast.Attribute) and p_.value is n and isinstance(g_, ast.Call) and g_.func is p_ \
+                            and p_.attr in (set(DICT_MUTATORS) | set(DICT_METHODS) | {"get"}):
+                        ok = True
+                    elif isinstance(p_, ast.Compare):
+                        ok = True
+                    elif isinstance(p_, (ast.For, ast.comprehension)) and p_.iter is n:
+                        ok = True
+                    elif isinstance(p_, ast.Call) and isinstance(p_.func, ast.Name) and p_.func.id in (CONSUMERS | {"enumerate"}) and n in p_.args:
+                        ok = True
+                    elif isinstance(p_, ast.Return) and m == own_name:
+                        ok = True
+                    elif isinstance(p_, ast.Call) and self.x3_ipf_arg(p_) is n:
+                        ok = True
+                    elif isinstance(p_, ast.Call) and isinstance(p_.func, ast.Name) and n in p_.args and self._scalar_callee(p_.func.id):
+                        ok = True
+                    elif isinstance(p_, (ast.If, ast.IfExp, ast.UnaryOp)):
+                        ok = True
+                    if not ok:
+                        raise Unsupported(f"{m} is updated in place and used where an alias could be created")
+            # a loop over the value may only replace the element it is at
+            for n in _walk_scope(body):
+                if isinstance(n, ast.For) and any(isinstance(x, ast.Name) and x.id == m for x in ast.walk(n.iter)):
+                    idx = None
+                    if isinstance(n.iter, ast.Call) and isinstance(n.iter.func, ast.Name) and n.iter.func.id == "enumerate" \
+                            and isinstance(n.target, ast.Tuple) and isinstance(n.target.elts[0], ast.Name):
+                        idx = n.target.elts[0].id
+                    for k in _walk_scope(n.body, into_exprs=True):
+                        if isinstance(k, ast.Subscript) and isinstance(k.ctx, ast.Store) and isinstance(k.value, ast.Name) and k.value.id == m:
+                            if not (idx is not None and isinstance(k.slice, ast.Name) and k.slice.id == idx and idx not in assigned):
+                                raise Unsupported(f"{m} is changed while it is iterated over")
+                        if isinstance(k, ast.Call) and isinstance(k.func, ast.Attribute) and isinstance(k.func.value, ast.Name) \
+                                and k.func.value.id == m and k.func.attr in (set(MUTATORS) | OTHER_MUTATORS):
+                            raise Unsupported(f"{m} is changed while it is iterated over")
+                        if isinstance(k, ast.Call):
+                            a = self.x3_ipf_arg(k)
+                            if a is not None and a.id == m:
+                                raise Unsupported(f"{m} is changed while it is iterated over")
+        for x, (lst, idx, loop) in enum_elems.items():
+            if x in assigned or idx in assigned:
+                self.enum_elems = {k: v for k, v in self.enum_elems.items() if k != x}
+
+    def x3_fresh_value(self, v):
+        """an expression whose value nothing else can refer to"""
+        if isinstance(v, (ast.List, ast.ListComp, ast.Dict, ast.DictComp)):
+            return True
+        if isinstance(v, ast.Call) and isinstance(v.func, ast.Name) and v.func.id not in self.locals:
+            if v.func.id in ("dict", "list", "sorted"):
+                return True
+            if v.func.id == "cast" and len(v.args) == 2:
+                return self.x3_fresh_value(v.args[1])
+            if v.func.id in self.x3_oracles():
+                return True                              # trusted: the external function builds a new value
+        if isinstance(v, ast.Call) and isinstance(v.func, ast.Attribute) and v.func.attr == "copy":
+            return True
+        return False
+
+    def x3_enter_loop(self, st, names, ind):
+        if len(names) == 2 and names[1] in self.enum_elems and self.enum_elems[names[1]][2] is st:
+            self.emit(ind, f"let mut {lname(names[1])} := {lname(names[1])}")
+
+    def x3_store(self, t, vterm, ind):
+        n = lname(t.value.id)
+        fn = "PyRt.dict_setitem" if self.x3_is_dict_name(t.value.id) else "PyRt.setitem"
+        self.emit(ind, f"{n} ← {fn} {n} {self.val(t.slice)} {vterm}")
+
+    def x3_rebind_ipf(self, call, ind):
+        """`f(x)` with f updating x in place: `x ← f x` (and the write-back when x is the element of a list being
+        enumerated); returns the name"""
+        a = self.x3_ipf_arg(call)
+        self._ipf_ok.add(id(call))
+        p, c = self.expr(call)
+        self.emit(ind, f"{lname(a.id)} ← {c}")
+        if a.id in self.enum_elems:
+            lst, idx, _ = self.enum_elems[a.id]
+            fn = "PyRt.dict_setitem" if self.x3_is_dict_name(lst) else "PyRt.setitem"
+            self.emit(ind, f"{lname(lst)} ← {fn} {lname(lst)} {lname(idx)} {lname(a.id)}")
+        elif a.id not in self.owned2:
+            raise Unsupported(f"{a.id} is updated in place by a call but is not an owned local")
+        return a.id
+
+    def x3_hoist(self, value, ind):
+        """value of a statement: in-place calls on a local that are the value itself or a direct argument of its
+        outermost call are done first (earlier arguments are evaluated before, as Python does); -> rewritten value or None"""
+        if not isinstance(value, ast.Call):
+            return None
+        if self.x3_ipf_arg(value) is not None and id(value) not in self._ipf_ok:
+            name = self.x3_rebind_ipf(value, ind)
+            return ast.copy_location(ast.Name(id=name, ctx=ast.Load()), value)
+        hit = [i for i, a in enumerate(value.args) if isinstance(a, ast.Call) and self.x3_ipf_arg(a) is not None and id(a) not in self._ipf_ok]
+        if not hit or value.keywords:
+            return None
+        if isinstance(value.func, ast.Attribute) and not isinstance(value.func.value, ast.Name):
+            return None
+        new_args = list(value.args)
+        for i, a in enumerate(value.args):
+            if i > hit[-1]:
+                break
+            if i in hit:
+                name = self.x3_rebind_ipf(a, ind)
+                new_args[i] = ast.copy_location(ast.Name(id=name, ctx=ast.Load()), a)
+            elif not isinstance(a, (ast.Constant, ast.Name)):
+                t = self.fresh("a")
+                p, c = self.expr(a)
+                self.emit(ind, f"let {t} := {c}" if p else f"let {t} ← {c}")
+                self._extra_bound = getattr(self, "_extra_bound", set()) | {t}
+                new_args[i] = ast.copy_location(ast.Name(id=t, ctx=ast.Load()), a)
+        return ast.copy_location(ast.Call(func=value.func, args=new_args, keywords=[]), value)
+
+    def x3_stmt(self, st, ind):
+        if isinstance(st, ast.Assign) and len(st.targets) == 1 and isinstance(st.targets[0], ast.Subscript):
+            t = st.targets[0]
+            if isinstance(t.value, ast.Name) and t.value.id in getattr(self, "owned2", ()) and not isinstance(t.slice, ast.Slice):
+                v = self.fresh("v")
+                p, c = self.expr(st.value)
+                self.emit(ind, f"let {v} := {c}" if p else f"let {v} ← {c}")
+                self.x3_store(t, v, ind)
+                return True
+            raise Unsupported("assignment to a subscript of something that is not an owned local")
+        if isinstance(st, ast.AugAssign) and isinstance(st.target, ast.Subscript):
+            t = st.target
+            if isinstance(t.value, ast.Name) and t.value.id in getattr(self, "owned2", ()) and not isinstance(t.slice, ast.Slice):
+                k, v = self.fresh("k"), self.fresh("v")
+                getter = "PyRt.dict_getitem" if self.x3_is_dict_name(t.value.id) else "PyRt.getitem"
+                self.emit(ind, f"let {k} := {self.val(t.slice)}")
+                self.emit(ind, f"let {v} ← {self.binop_fn(st.op)} (← {getter} {lname(t.value.id)} {k}) {self.val(st.value)}")
+                n = lname(t.value.id)
+                fn = "PyRt.dict_setitem" if self.x3_is_dict_name(t.value.id) else "PyRt.setitem"
+                self.emit(ind, f"{n} ← {fn} {n} {k} {v}")
+                return True
+            raise Unsupported("augmented assignment to a subscript of something that is not an owned local")
+        if isinstance(st, (ast.Return, ast.Assign, ast.AnnAssign)) and getattr(st, "value", None) is not None and hasattr(self, "owned2"):
+            nv = self.x3_hoist(st.value, ind)
+            if nv is not None:
+                if isinstance(st, ast.Return):
+                    new = ast.Return(value=nv)
+                elif isinstance(st, ast.Assign):
+                    new = ast.Assign(targets=st.targets, value=nv)
+                else:
+                    new = ast.AnnAssign(target=st.target, annotation=st.annotation, value=nv, simple=st.simple)
+                self.stmt(ast.copy_location(new, st), ind)
+                return True
+        return False
+
+    def x3_expr_stmt(self, e, ind):
+        if isinstance(e, ast.Call) and hasattr(self, "owned2") and self.x3_ipf_arg(e) is not None:
+            self.x3_rebind_ipf(e, ind)
+            return True
+        if isinstance(e, ast.Call) and isinstance(e.func, ast.Attribute) and isinstance(e.func.value, ast.Name) \
+                and e.func.attr in DICT_MUTATORS and e.func.value.id in getattr(self, "owned2", ()) and self.x3_is_dict_name(e.func.value.id):
+            fn, ar = DICT_MUTATORS[e.func.attr]
+            if len(e.args) != ar or e.keywords:
+                raise Unsupported(f"arguments of {e.func.attr}")
+            n = lname(e.func.value.id)
+            self.emit(ind, f"{n} ← {fn} {n} " + " ".join(self.val(a) for a in e.args))
+            return True
+        if isinstance(e, ast.Call):
+            m = _nested_mutation(ast.Expr(value=e))
+            if m is not None and m in getattr(self, "nested", ()):
+                fn, ar = MUTATORS[e.func.attr]
+                if len(e.args) != ar or e.keywords:
+                    raise Unsupported(f"arguments of {e.func.attr}")
+                n = lname(m)
+                i = self.fresh("i")
+                self.emit(ind, f"let {i} := {self.val(e.func.value.slice)}")
+                # Python's order: the element, then the arguments, then the method
+                self.emit(ind, f"{n} ← PyRt.setitem {n} {i} (← {fn} (← PyRt.getitem {n} {i}) " + " ".join(self.val(a) for a in e.args) + ")")
+                return True
+        return False
+
+    def x3_foreign(self, base):
+        """a parameter annotated with a class of another library (`sys._version_info`): certainly not a tracked class"""
+        if isinstance(base, ast.Name) and base.id not in self.param_assigned_names():
+            for a in self.node.args.args + self.node.args.kwonlyargs:
+                if a.arg == base.id and isinstance(a.annotation, ast.Attribute):
+                    d = _dotted(a.annotation)
+                    return bool(d) and inspect.ismodule(self.globals.get(d[0])) and not self.globals[d[0]].__name__.startswith("packaging")
+        return False
+
+    def x3_guard_class(self, e):
+        """`if not isinstance(x, C): return …` at the top level of the body, before this use: x is a C from there on"""
+        for st in self.node.body:
+            if isinstance(st, ast.If) and not st.orelse and isinstance(st.test, ast.UnaryOp) and isinstance(st.test.op, ast.Not) \
+                    and isinstance(st.test.operand, ast.Call) and isinstance(st.test.operand.func, ast.Name) \
+                    and st.test.operand.func.id == "isinstance" and len(st.test.operand.args) == 2 \
+                    and isinstance(st.test.operand.args[0], ast.Name) and st.test.operand.args[0].id == e.id \
+                    and isinstance(st.test.operand.args[1], ast.Name) and not _falls_through(st.body) \
+                    and getattr(e, "lineno", 0) > st.end_lineno:
+                v = self.globals.get(st.test.operand.args[1].id)
+                if inspect.isclass(v) and self.ctx.is_tracked(v):
+                    return v
+        return None
+
+    def x3_fn_table(self, name):
+        """a module-level constant dict whose values are functions (`operator.xx` or lambdas): -> (keys, dict node)"""
+        d = self.globals.get(name)
+        if not isinstance(d, dict) or not d or not all(isinstance(k, str) and callable(v) for k, v in d.items()):
+            return None
+        import sys as _sys
+        mod = _sys.modules.get(self.pyfunc.__module__)
+        try:
+            tree = ast.parse(inspect.getsource(mod))
+        except (OSError, TypeError, SyntaxError):
+            return None
+        node = None
+        for st in tree.body:
+            if isinstance(st, (ast.Assign, ast.AnnAssign)) and name in _targets_of(st) and isinstance(st.value, ast.Dict):
+                node = st.value
+        if node is None or [k.value if isinstance(k, ast.Constant) else None for k in node.keys] != list(d.keys()):
+            return None
+        return list(d.keys()), node
+
+    def x3_fn_table_defs(self, name, arity):
+        """`<name>__get key` (the callable stored under key, as a reference, or None) and `<name>__call f a0 …`"""
+        keys, node = self.x3_fn_table(name)
+        get, call = f"{name}__get", f"{name}__call"
+        if get not in self.ctx.dispatchers:
+            test = " || ".join(f"PyVal.eq key {lconst(k)}" for k in keys)
+            self.ctx.dispatchers[get] = (f"def {get} (key : PyVal) : M PyVal :=\n  if !(PyRt.hashable key) then throw PyRt.typeError else\n"
+                                         f"  if {test} then pure (PyRt.fn_ref \"{name}\" key) else pure PyVal.none")
+            self.ctx.dispatcher_deps[get] = set()
+            args = [f"a{i}" for i in range(arity)]
+            body = ""
+            saved_locals, saved_bound = self.locals, self._bound
+            try:
+                self.locals = set()
+                for k, v in zip(keys, node.values):
+                    if isinstance(v, ast.Lambda):
+                        ps = [a.arg for a in v.args.args]
+                        if len(ps) != arity or v.args.vararg or v.args.kwarg or v.args.defaults:
+                            raise Unsupported(f"{name}[{k!r}]: a lambda with other than {arity} plain parameters")
+                        self._bound = saved_bound + [set(ps)]
+                        inner = self.mval(v.body)
+                        self._bound = saved_bound
+                        code = "(do " + "; ".join(f"let {lname(q)} := {a}" for q, a in zip(ps, args)) + f"; {inner})"
+                    elif isinstance(v, ast.Attribute) and isinstance(v.value, ast.Name) and v.value.id == "operator" \
+                            and getattr(self.globals.get("operator"), "__name__", "") == "operator" and v.attr in OPERATOR_FN and arity == 2:
+                        code = "(" + OPERATOR_FN[v.attr].format(a=args[0], b=args[1]) + ")"
+                    else:
+                        raise Unsupported(f"{name}[{k!r}] is neither a lambda nor operator.<comparison>")
+                    body += f"if PyVal.eq key {lconst(k)} then {code} else "
+            finally:
+                self.locals, self._bound = saved_locals, saved_bound
+            self.ctx.dispatchers[call] = (f"def {call} (f {' '.join(args)} : PyVal) : M PyVal := do\n  let key ← PyRt.fn_key \"{name}\" f\n"
+                                          f"  {body}throw \"PyRtUnsupported\"")
+            self.ctx.dispatcher_deps[call] = set()
+        for d in (get, call):
+            self.ctx.deps.setdefault(self.ctx.current, set()).add(d)
+        return get, call
+
+    def x3_local_fn_table(self, name):
+        """local `name` bound exactly once, by `name = <TABLE>.get(k)`: the table's name"""
+        binds = [n for n in _walk_scope(self.node.body) if name in _targets_of(n)]
+        if len(binds) == 1 and isinstance(binds[0], (ast.Assign, ast.AnnAssign)) and binds[0].value is not None:
+            v = binds[0].value
+            if isinstance(v, ast.Call) and isinstance(v.func, ast.Attribute) and v.func.attr == "get" and isinstance(v.func.value, ast.Name) \
+                    and v.func.value.id not in self.locals and len(v.args) == 1 and self.x3_fn_table(v.func.value.id) is not None:
+                return v.func.value.id
+        return None
+
+    def x3_dyn_method(self, attr, nargs):
+        """method `attr` of a value whose class is not known statically: a dispatcher over every tracked class that has it"""
+        name = f"{attr}__dyn"
+        if name not in self.ctx.dispatchers:
+            args = [f"a{i}" for i in range(nargs)]
+            body, deps = "", set()
+            for k in self.ctx.tracked:
+                impl = self.ctx.lookup(k, attr)
+                if not inspect.isfunction(impl):
+                    continue
+                if len(inspect.signature(impl).parameters) != nargs + 1:
+                    raise Unsupported(f"method .{attr}: arity differs between classes")
+                fn = self.ctx.require(impl)
+                deps.add(fn)
+                body += f'if PyRt.className self == "{k.__name__}" then {self.call_selected(fn, ["self"] + args)} else '
+            if not deps:
+                raise Unsupported(f"method {attr}")
+            self.ctx.dispatchers[name] = f"def {name} (self {' '.join(args)} : PyVal) : M PyVal :=\n  {body}throw PyRt.attributeError"
+            self.ctx.dispatcher_deps[name] = deps
+        self.ctx.deps.setdefault(self.ctx.current, set()).add(name)
+        return name
+
+    def x3_call(self, e, kws):
+        f = e.func
+        oracles = self.x3_oracles()
+        if isinstance(f, ast.Name) and f.id not in self.locals and f.id not in self.bound_stack():
+            v = self.globals.get(f.id)
+            if f.id in oracles:
+                if any(isinstance(a, ast.Starred) for a in e.args):
+                    raise Unsupported("*args in a call")
+                if inspect.isclass(v):
+                    args = self.bind_args(self.ctx.lookup(v, "__init__"), e.args, kws, skip_self=True)
+                else:
+                    args = self.bind_args(v, e.args, kws)
+                return False, f'PyRt.ext_call {self.use_ext()} "{f.id}" [' + ", ".join(args) + "]"
+            if f.id == "cast" and getattr(v, "__module__", "") == "typing" and len(e.args) == 2 and not kws:
+                return self.expr(e.args[1])
+            if hasattr(self, "owned2") and self.x3_ipf_arg(e) is not None and id(e) not in self._ipf_ok:
+                raise Unsupported("a call that updates a local in place inside a larger expression")
+        if isinstance(f, ast.Name) and f.id in self.locals and f.id not in self.bound_stack():
+            tab = self.x3_local_fn_table(f.id)
+            if tab is not None:
+                if kws or any(isinstance(a, ast.Starred) for a in e.args):
+                    raise Unsupported("keyword / starred arguments of a callable taken from a table")
+                _, call = self.x3_fn_table_defs(tab, len(e.args))
+                p, c = self.name(f)
+                recv = c if p else f"(← {c})"
+                return False, f"{call} {recv}" + "".join(" " + self.val(a) for a in e.args)
+        if isinstance(f, ast.Attribute):
+            if isinstance(f.value, ast.Name) and f.value.id not in self.locals and f.value.id not in self.bound_stack() \
+                    and f.attr == "get" and len(e.args) == 1 and not kws and self.x3_fn_table(f.value.id) is not None:
+                get, _ = self.x3_fn_table_defs(f.value.id, 2)
+                return False, f"{get} {self.val(e.args[0])}"
+            c = self.static_class(f.value)
+            if c is not None and f"{c.__name__}.{f.attr}" in oracles:
+                impl = self.ctx.lookup(c, f.attr)
+                recv = self.val(f.value)
+                args = self.bind_args(impl, e.args, kws, skip_self=True)
+                return False, f'PyRt.ext_call {self.use_ext()} "{c.__name__}.{f.attr}" [' + ", ".join([recv] + args) + "]"
+            if self.x3_is_dict_expr(f.value):
+                if f.attr == "get" and 1 <= len(e.args) <= 2 and not kws:
+                    recv = self.val(f.value)
+                    k = self.val(e.args[0])
+                    d = self.val(e.args[1]) if len(e.args) == 2 else "PyVal.none"
+                    return False, f"PyRt.dict_get {recv} {k} {d}"
+                if f.attr in DICT_METHODS and len(e.args) == DICT_METHODS[f.attr][1] and not kws:
+                    return False, f"{DICT_METHODS[f.attr][0]} {self.val(f.value)}"
+            dotted = _dotted(f)
+            is_module = dotted and dotted[0] not in self.locals and inspect.ismodule(self.globals.get(dotted[0]))
+            if c is None and not is_module and f.attr not in METHODS and f.attr not in MUTATORS and self.ctx.defined_by_tracked(f.attr) \
+                    and not kws and not any(isinstance(a, ast.Starred) for a in e.args):
+                recv = self.val(f.value)
+                name = self.x3_dyn_method(f.attr, len(e.args))
+                return False, f"{name} {recv}" + "".join(" " + self.val(a) for a in e.args)
+        return None
+    # ================================================================================================ x3 end
+
 
 _CMP = {ast.Lt: "lt", ast.LtE: "le", ast.Gt: "gt", ast.GtE: "ge"}
 _MISSING = object()
@@ -1705,6 +2290,15 @@ def _is_fresh_list(v):
     return False
 
 
+def _nested_mutation(n):
+    """x3: statement `name[i].append(x)` (a list method on an element of a local list): the name, else None"""
+    if isinstance(n, ast.Expr) and isinstance(n.value, ast.Call) and isinstance(n.value.func, ast.Attribute) \
+            and n.value.func.attr in MUTATORS and isinstance(n.value.func.value, ast.Subscript) \
+            and isinstance(n.value.func.value.value, ast.Name) and not isinstance(n.value.func.value.slice, ast.Slice):
+        return n.value.func.value.value.id
+    return None
+
+
 def _falls_through(stmts):
     """can control reach the end of this statement list?  (conservative: True when in doubt)"""
     for st in stmts:
@@ -1724,7 +2318,7 @@ def _targets_of(n):
     elif isinstance(n, (ast.AnnAssign, ast.AugAssign)):
         if isinstance(n, ast.AnnAssign) and n.value is None:
             return out
-        out += [x.id for x in ast.walk(n.target) if isinstance(x, ast.Name)]
+        out += [x.id for x in ast.walk(n.target) if isinstance(x, ast.Name) and isinstance(x.ctx, ast.Store)]
     elif isinstance(n, ast.NamedExpr):
         raise Unsupported("assignment expression")
     return out
@@ -1761,6 +2355,8 @@ class Ctx:
         self.current = None
         self.imports = set()       # extra Lean modules the generated file needs
         self.uses_env = set()      # lean names of functions that take the environment
+        self.uses_ext = set()      # x3: lean names of functions that take the oracle
+        self.recursive = {}        # x3: lean name -> id of its recursive group (functions that call each other)
         self.dispatchers = {}      # name -> Lean definition text
         self.dispatcher_deps = {}
         self.tracked = []
@@ -1832,6 +2428,33 @@ class Ctx:
         return None
 
     # -- functions
+    def ipf_of(self, f):
+        """x3: index of the parameter that function f updates in place *and* returns at every `return` (the function is
+        then translated as returning the updated value, and its callers rebind what they passed), else None"""
+        cache = self.__dict__.setdefault("_ipf", {})
+        if id(f) in cache:
+            return cache[id(f)]
+        cache[id(f)] = None
+        try:
+            node = ast.parse(textwrap.dedent(inspect.getsource(f))).body[0]
+        except (OSError, SyntaxError, TypeError):
+            return None
+        if not isinstance(node, ast.FunctionDef):
+            return None
+        names = [a.arg for a in node.args.args]
+        hit = set()
+        for n in _walk_scope(node.body, into_exprs=True):
+            if isinstance(n, ast.Subscript) and isinstance(n.ctx, ast.Store) and isinstance(n.value, ast.Name) and n.value.id in names:
+                hit.add(n.value.id)
+            if isinstance(n, ast.Call) and isinstance(n.func, ast.Attribute) and isinstance(n.func.value, ast.Name) \
+                    and n.func.value.id in names and n.func.attr in (set(MUTATORS) | OTHER_MUTATORS):
+                hit.add(n.func.value.id)
+        rets = [n for n in _walk_scope(node.body) if isinstance(n, ast.Return)]
+        if len(hit) == 1 and rets and all(isinstance(r.value, ast.Name) and r.value.id in hit for r in rets) \
+                and not _falls_through(node.body):
+            cache[id(f)] = names.index(next(iter(hit)))
+        return cache[id(f)]
+
     def lean_name_of(self, f):
         return self.objs.get(id(f))
 
@@ -1856,13 +2479,17 @@ def _arity(pyfunc):
 
 def generate(selected=None):
     uses_env = set()
-    for _ in range(6):                   # which functions need `env` is a fixed point over the call graph
+    uses_ext, recursive = set(), {}
+    for _ in range(8):                   # which functions need `env` is a fixed point over the call graph
         ctx = Ctx(selected or SELECTED)
         ctx.uses_env = set(uses_env)
+        ctx.uses_ext, ctx.recursive = set(uses_ext), dict(recursive)        # x3
         defs, info, arities = _translate_all(ctx)
-        if ctx.uses_env == uses_env:
+        rec = _recursive_groups(ctx)
+        if ctx.uses_env == uses_env and ctx.uses_ext == uses_ext and rec == recursive:
             break
         uses_env = set(ctx.uses_env)
+        uses_ext, recursive = set(ctx.uses_ext), rec
     return _assemble(ctx, defs, info, arities)
 
 
@@ -1891,6 +2518,7 @@ def _translate_all(ctx):
                 arities[lean_name] = n
             params = " ".join(f"_a{i}" for i in range(n))
             env = "(_env : PyRt.Env) " if lean_name in ctx.uses_env else ""
+            env += "(_ext : PyRt.Oracle) " if lean_name in ctx.uses_ext else ""
             text = (f"/-- NOT TRANSLATED: {err} -/\n"
                     f"def {lean_name} {env}" + (f"({params} : PyVal) " if n else "") + ': M PyVal := throw "PySrcUnsupported"')
             info[lean_name] = {"supported": False, "why": err}
@@ -1900,46 +2528,112 @@ def _translate_all(ctx):
     return defs, info, arities
 
 
+def _sccs(ctx):
+    """x3: strongly connected components of the call graph (functions and dispatcher definitions), callees first"""
+    nodes = [n for n, _, _ in ctx.funcs] + list(ctx.dispatchers)
+    def succ(n):
+        return sorted(ctx.dispatcher_deps[n] if n in ctx.dispatchers else ctx.deps.get(n, ()))
+    index, low, on, stack, out = {}, {}, set(), [], []
+    def strong(v):
+        index[v] = low[v] = len(index)
+        stack.append(v)
+        on.add(v)
+        for w in succ(v):
+            if w not in index:
+                strong(w)
+                low[v] = min(low[v], low[w])
+            elif w in on:
+                low[v] = min(low[v], index[w])
+        if low[v] == index[v]:
+            comp = []
+            while True:
+                w = stack.pop()
+                on.discard(w)
+                comp.append(w)
+                if w == v:
+                    break
+            out.append(list(reversed(comp)))
+    for n in nodes:
+        if n not in index:
+            strong(n)
+    return out, succ
+
+
+def _recursive_groups(ctx):
+    """x3: lean name -> group id, for the functions that call themselves or each other"""
+    comps, succ = _sccs(ctx)
+    rec = {}
+    for comp in comps:
+        if len(comp) > 1 or comp[0] in succ(comp[0]):
+            gid = sorted(comp)[0]
+            for n in comp:
+                rec[n] = gid
+    return rec
+
+
 def _assemble(ctx, defs, info, arities):
-    # order by dependencies (calls between selected functions); recursion is not supported
-    order, state = [], {}
-
-    def visit(n, stack=()):
-        if state.get(n) == 2:
-            return
-        if state.get(n) == 1:
-            raise Unsupported("recursion between selected functions: " + " -> ".join(stack + (n,)))
-        state[n] = 1
-        for d in sorted(ctx.dispatcher_deps[n] if n in ctx.dispatchers else ctx.deps.get(n, ())):
-            visit(d, stack + (n,))
-        state[n] = 2
-        order.append(n)
-
-    for lean_name, _, _ in ctx.funcs:
-        visit(lean_name)
+    # order by dependencies (calls between selected functions); a group of functions that call each other becomes a
+    # `mutual` block of fuel-indexed definitions followed by the entry points (x3)
+    comps, succ = _sccs(ctx)
     out = ["import PkgModel.PyRt"] + [f"import {m}" for m in sorted(ctx.imports)] + [
            "/-! GENERATED by harness/translators/pysrc.py from the current source of the selected functions — do not edit. -/",
            "set_option linter.unusedVariables false",
            "namespace Gen.PySrc", "open PyRt", ""]
-    for n in order:
-        if n in ctx.dispatchers:
-            out.append("/-- dynamic dispatch on the run-time class (a tracked subclass overrides the attribute) -/")
-            out.append(ctx.dispatchers[n])
+    order = []
+    for comp in comps:
+        recursive = len(comp) > 1 or comp[0] in succ(comp[0])
+        if not recursive:
+            n = comp[0]
+            if n in ctx.dispatchers:
+                out.append("/-- dynamic dispatch on the run-time class / a table of callables -/")
+                out.append(ctx.dispatchers[n])
+                out.append("")
+                continue
+            order.append(n)
+            out.append(f"def {n}_supported : Bool := {'true' if info[n]['supported'] else 'false'}")
+            out.append(defs[n])
             out.append("")
             continue
-        sup = info[n]["supported"]
-        out.append(f"def {n}_supported : Bool := {'true' if sup else 'false'}")
-        out.append(defs[n])
+        if any(n in ctx.dispatchers for n in comp):
+            raise Unsupported("recursion through a dispatcher definition: " + " -> ".join(comp))
+        comp = [n for n, _, _ in ctx.funcs if n in comp]            # source order
+        good = [n for n in comp if info[n]["supported"] and ctx.recursive.get(n) is not None]
+        for n in comp:
+            order.append(n)
+            sup = n in good
+            out.append(f"def {n}_supported : Bool := {'true' if sup else 'false'}")
+            if not sup:                                  # a stub, ahead of the block (it calls nothing)
+                k = arities[n]
+                env = ("(_env : PyRt.Env) " if n in ctx.uses_env else "") + ("(_ext : PyRt.Oracle) " if n in ctx.uses_ext else "")
+                why = info[n].get("why") or "the group of recursive functions was not stable"
+                out.append(f"/-- NOT TRANSLATED: {why} -/")
+                out.append(f"def {n}__fuel {env}(_fuel : Nat) " + (f"({' '.join(f'_a{i}' for i in range(k))} : PyVal) " if k else "")
+                           + ': M PyVal := throw "PySrcUnsupported"')
+        if len(good) > 1:
+            out.append("mutual")
+        for n in good:
+            out.append(defs[n])
+        if len(good) > 1:
+            out.append("end")
         out.append("")
-    order = [n for n in order if n not in ctx.dispatchers]
+        for n in comp:
+            k = arities[n]
+            ps = [f"a{i}" for i in range(k)]
+            envd = ("(env : PyRt.Env) " if n in ctx.uses_env else "") + ("(ext : PyRt.Oracle) " if n in ctx.uses_ext else "")
+            enva = (" env" if n in ctx.uses_env else "") + (" ext" if n in ctx.uses_ext else "")
+            out.append(f"/-- entry point: the fuel bounds the recursion depth by the size of the arguments -/")
+            out.append(f"def {n} {envd}" + (f"({' '.join(ps)} : PyVal) " if ps else "") + ": M PyVal :=\n"
+                       f"  {n}__fuel{enva} (PyRt.fuelOf [{', '.join(ps)}])" + "".join(" " + q for q in ps))
+            out.append("")
     out.append("/-- every translated function by name, for the `src.call` driver operation -/")
     out.append("def table : List (String × Nat × (List PyVal → M PyVal)) :=")
     rows = []
     for n in order:
         k = arities[n]
-        call = n + (" (PyRt.envOf e)" if n in ctx.uses_env else "") + "".join(f" a{i}" for i in range(k))
-        pats = ", ".join((["e"] if n in ctx.uses_env else []) + [f"a{i}" for i in range(k)])
-        kk = k + (1 if n in ctx.uses_env else 0)
+        call = n + (" (PyRt.envOf e)" if n in ctx.uses_env else "") + (" (PyRt.oracleOf x)" if n in ctx.uses_ext else "") \
+            + "".join(f" a{i}" for i in range(k))
+        pats = ", ".join((["e"] if n in ctx.uses_env else []) + (["x"] if n in ctx.uses_ext else []) + [f"a{i}" for i in range(k)])
+        kk = k + (1 if n in ctx.uses_env else 0) + (1 if n in ctx.uses_ext else 0)
         rows.append(f'  ("{n}", {kk}, fun (args : List PyVal) => (match args with | [{pats}] => {call} | _ => throw "PySrcArity" : M PyVal))')
     out.append("  [" + ",\n  ".join(r.strip() for r in rows) + "]")
     out.append("")
